@@ -23,6 +23,19 @@ CHECKS = {
               "TestNode objects (proof of the aliasing pattern is part of C09)."),
         note=COMMON_NOTE + "The model snapshots variant_nodes[v0] during insert (equal to the live iteration unless a name repeats its own first variant, which the property excludes).",
         design="§5 C16"),
+    "C10": dict(
+        engine="corr-pure",
+        technique="Coq proof (characterisation of the should_rerun decision table by case analysis + lia; induction over start/report event lists for identifier distinctness; list induction for look-up and verdict) + model/implementation correspondence by vm_compute on real TestNode/TestRunner objects",
+        text=("Theorems over Model/Retry.v: should_rerun answers True iff tries remain, every status so far is in the rerun set and none in the stop "
+              "set (any status list, any valid setting); any invalid setting (non-status word, non-integer or negative max_tries) gives an error on "
+              "every runnable node; with the replay defaults a test is executed again iff it has no acceptable previous result (stateless) or a "
+              "state it produces is missing (stateful); the uid suffixes handed out over any interleaving of starts and reports are pairwise "
+              "distinct and the (name, uid) look-up returns the own result; the verdict is true iff every executed name has an OK result; the "
+              "duration check never changes acceptability. Compared with the real should_rerun, default_run_decision, run_test_node (stub "
+              "task) and all_results_ok. PARTIAL for the dynamic clause: that the traversal consults these functions at the right moments "
+              "is covered by the traversal model of C03, not here."),
+        note=COMMON_NOTE + "The token split of rerun_status/stop_status and int() parsing of max_tries are reproduced by the harness; statuses are an 8-value enumeration; durations are integers (exact under the float comparison).",
+        design="§5 C10"),
     "C12": dict(
         engine="corr-pure",
         technique="Coq proof (case analysis for the policy table; refinement of the call-level model to a set-of-names specification by induction over the object list and over operation sequences; frame and call-addressing invariants) + model/implementation correspondence by vm_compute (exhaustive single-object product + random sequences)",
